@@ -107,15 +107,19 @@ def bytesLt : Bytes → Bytes → Bool
 def sortPairs (hs : List (Bytes × Bytes)) : List (Bytes × Bytes) :=
   hs.mergeSort (fun a b => !(bytesLt b.1 a.1))
 
-def showPairs (hs : List (Bytes × Bytes)) : String :=
-  if hs.isEmpty then "_" else String.intercalate "," ((sortPairs hs).map fun p => toHex p.1 ++ "=" ++ toHex p.2)
+/-- in the order given (request headers: the order of the effect is part of the observation) -/
+def showPairsRaw (hs : List (Bytes × Bytes)) : String :=
+  if hs.isEmpty then "_" else String.intercalate "," (hs.map fun p => toHex p.1 ++ "=" ++ toHex p.2)
+
+/-- sorted by name (response headers: a hash map, whose iteration order the harness canonicalises) -/
+def showPairs (hs : List (Bytes × Bytes)) : String := showPairsRaw (sortPairs hs)
 
 def showPanic : PanicClass → String
   | .status => "panic status" | .header => "panic header" | .other => "panic other"
 
 def showReqObs : ReqObs → String
   | .panic c => showPanic c
-  | .req n m u hs b => s!"req {n} {String.ofList (m.map Char.ofNat)} {toHex u} {showPairs hs} {toHex b}"
+  | .req n m u hs b => s!"req {n} {String.ofList (m.map Char.ofNat)} {toHex u} {showPairsRaw hs} {toHex b}"
 
 def showErr : HttpError → String
   | .http c m b => s!"err http {c} {toHex m} " ++ (match b with | none => "none" | some b => toHex b)
